@@ -4,6 +4,7 @@ import (
 	"strings"
 
 	"github.com/jsightapi/jsight-schema-go-library/errors"
+	"github.com/jsightapi/jsight-schema-go-library/internal/lexeme"
 	"github.com/jsightapi/jsight-schema-go-library/notations/jschema/internal/schema"
 	"github.com/jsightapi/jsight-schema-go-library/notations/jschema/internal/schema/constraint"
 )
@@ -163,7 +164,7 @@ func (c *recursionChecker) checkMixedValueNode(
 	// to infinity recursion.
 	errs := make([]error, 0, len(tt))
 	for _, t := range tt {
-		if err := c.checkType(t, types); err != nil {
+		if err := c.checkType(t, types, node.BasisLexEventOfSchemaForNode()); err != nil {
 			errs = append(errs, err)
 		}
 	}
@@ -175,9 +176,9 @@ func (c *recursionChecker) checkMixedValueNode(
 	return nil
 }
 
-func (c *recursionChecker) checkType(typeName string, types map[string]schema.Type) error {
+func (c *recursionChecker) checkType(typeName string, types map[string]schema.Type, lex lexeme.LexEvent) error {
 	if !c.visit(typeName) {
-		return c.createError()
+		return recursionError{lexeme.NewLexEventError(lex, c.createError())}
 	}
 	defer c.leave(typeName)
 
@@ -207,6 +208,20 @@ func (c *recursionChecker) leave(typeName string) {
 	delete(c.visited, typeName)
 }
 
-func (c *recursionChecker) createError() error {
+func (c *recursionChecker) createError() errors.Errorf {
 	return errors.Format(errors.ErrInfinityRecursionDetected, strings.Join(c.path, " -> "))
+}
+
+// recursionError is the infinity recursion error positioned at the type reference
+// which closes the cycle. Error() keeps the short text this error always had.
+type recursionError struct {
+	errors.DocumentError
+}
+
+func (e recursionError) Error() string {
+	return e.Message()
+}
+
+func (e recursionError) Unwrap() error {
+	return e.DocumentError
 }
